@@ -11,6 +11,7 @@ import (
 	"fmt"
 	"math"
 	"os"
+	"time"
 )
 
 type RuntimeError string
@@ -193,3 +194,10 @@ func StringOfLen(n int) string { return string(make([]byte, n)) }
 // AliasBytes returns a slice over the same memory that the engine tracks as a separate
 // mapping object (so that MarkDead on it does not affect other views). Natively: b.
 func AliasBytes(b []byte) []byte { return b }
+
+// NowSec is the wall clock under the engine: calls to time.Now are redirected to Now.
+// Natively the real clock is used (harnesses must therefore derive "today" from
+// time.Now themselves rather than from NowSec).
+var NowSec int64 = 1704103445 // 2024-01-01T10:04:05Z
+
+func Now() time.Time { return time.Unix(NowSec, 0) }
